@@ -870,8 +870,10 @@ class X12ContextReader(object):
             # If we are in the requested tree, wait until we have the whole thing
             if loop_id is not None and loop_id in node_x12path.loop_list:
                 # Are we at the start of the requested tree?
+                # (the first segment of a wrapper coming again is that segment repeating, not a new instance)
                 if node_x12path.loop_list[-1] == loop_id and \
-                        self.x12_map_node.is_first_seg_in_loop():
+                        self.x12_map_node.is_first_seg_in_loop() and \
+                        (cur_tree is None or getattr(self.x12_map_node.parent, 'type', None) != 'wrapper'):
                     if cur_tree is not None:
                         # Found root loop repeat. Yield existing, create new tree
                         yield cur_tree
@@ -997,7 +999,8 @@ class X12ContextReader(object):
                 cur_loop_node = cur_loop_node._add_loop_node(x12_loop)
         else:
             # handle loop repeat
-            if cur_loop_node.parent is not None and segment_x12_node.is_first_seg_in_loop():
+            if cur_loop_node.parent is not None and segment_x12_node.is_first_seg_in_loop() \
+                    and getattr(segment_x12_node.parent, 'type', None) != 'wrapper':
                 cur_loop_node = cur_loop_node.parent._add_loop_node(
                     segment_x12_node.parent)
         try:
